@@ -184,6 +184,18 @@ def _run_history(rng, scratch, cid, cipher, hashing, env):
             o = done('snapshot', clients[u].snapshot(paths, note=note))
             if o.ok:
                 snapshots.append((o.value, u))
+    # a tree in which every file is empty (.gitkeep, lock files): the chunk table of this snapshot is empty
+    hollow = root / f'hollow-{rng.randbytes(4).hex()}'
+    (hollow / 'sub').mkdir(parents=True)
+    empties = {}
+    for nm in (f'.gitkeep-{rng.randbytes(4).hex()}', f'sub/lockfile-{rng.randbytes(4).hex()}.lock'):
+        (hollow / nm).write_bytes(b'')
+        empties[str((hollow / nm).resolve())] = b''
+    note3 = f'note-gamma-{rng.randbytes(5).hex()}'
+    o = done('snapshot', clients['owner'].snapshot([hollow], note=note3))
+    if o.ok:
+        snapshots.append((o.value, 'owner'))
+    shutil.rmtree(hollow, ignore_errors=True)
     before_delete = dict(be.objects)
     if s1.ok:
         done('delete', clients['owner'].delete_snapshots([s1.value.name]))
@@ -191,7 +203,7 @@ def _run_history(rng, scratch, cid, cipher, hashing, env):
     shutil.rmtree(tree, ignore_errors=True)
     return {'cid': cid, 'cipher': cipher, 'hashing': hashing, 'log': list(be.log), 'outputs': outputs, 'keyfiles': keyfiles, 'keys': keys,
             'passwords': pw, 'to_file': to_file, 'snapshots': snapshots, 'failures': failures, 'env': env,
-            'files': [files, files2, {victim: files2[victim]}], 'notes': [note1, note2, None], 'before_delete': before_delete,
+            'files': [files, files2, {victim: files2[victim]}, empties], 'notes': [note1, note2, None, note3], 'before_delete': before_delete,
             'deleted': s1.value.name if s1.ok else None, 'config': before_delete['config']}
 
 
@@ -777,6 +789,83 @@ def vanishing_chunk_probe(ctx, rep):
         shutil.rmtree(root, ignore_errors=True)
 
 
+INIT_SETTINGS = [
+    ('no settings', None), ('empty settings', {}),
+    ('only hashing', {'hashing': {'name': 'sha2', 'bits': 256}}), ('only chunking', {'chunking': dict(repolab.SMALL_CHUNKING)}),
+    ('hashing and chunking', {'hashing': {'name': 'blake2b', 'length': 32}, 'chunking': dict(repolab.SMALL_CHUNKING)}),
+    ('empty encryption section', {'encryption': {}}),
+    ('only cipher', {'encryption': {'cipher': {'name': 'chacha20_poly1305'}}}),
+    ('only kdf', {'encryption': {'kdf': {'name': 'scrypt', 'n': 4}}}),
+    ('chunking and cipher', {'chunking': dict(repolab.SMALL_CHUNKING), 'encryption': {'cipher': {'name': 'aes_gcm', 'key_bits': 128}}}),
+]
+
+
+class CheapDefaultKdf:
+    """The default user KDF (scrypt, n = 2^20, 1 GiB) is far too expensive to run a dozen times; its default cost parameter
+    is lowered from outside for the duration of the probe (settings that name a KDF are not affected)."""
+
+    def __enter__(self):
+        from replicat.utils import adapters
+        self.fn = adapters.scrypt.__init__
+        self.saved = dict(self.fn.__kwdefaults__)
+        self.fn.__kwdefaults__['n'] = 4
+        return self
+
+    def __exit__(self, *exc):
+        self.fn.__kwdefaults__.clear()
+        self.fn.__kwdefaults__.update(self.saved)
+
+
+def init_settings_probe(ctx, rep):
+    """A repository initialised WITH a password and without `encryption: None` is encrypted, whatever else the settings
+    mention: the config has the encryption section, a key is produced, and nothing that is stored afterwards is tainted."""
+    import copy, random
+    with CheapDefaultKdf():
+        for idx, (label, settings) in enumerate(INIT_SETTINGS):
+            seed = ctx.rng.randrange(1 << 30)
+            rng = random.Random(seed)
+            root = Path(ctx.scratch) / f'c05-init-{idx}'
+            tree = root / f'confidential-{rng.randbytes(4).hex()}'
+            files = repolab.make_tree(rng, tree, 2, maxlen=600)
+            files = {str(Path(p).rename(Path(p).with_name(f'secretname{i}-{rng.randbytes(4).hex()}.dat'))): d for i, (p, d) in enumerate(sorted(files.items()))}
+            be = MemBackend()
+            pw = b'pass-init-' + rng.randbytes(6).hex().encode()
+            note = f'note-init-{rng.randbytes(5).hex()}'
+            cl = repolab.Client(be, password=pw)
+            replay = {'init_settings': label, 'settings': settings}
+            what = f'init with a password and {label} ({json.dumps(settings)})'
+            rep.case(('init-settings', label, seed), nontrivial=True)
+            rep.count('probe:init-settings')
+            o = cl.init(copy.deepcopy(settings))
+            outputs = [('init', o.stdout, o.stderr)]
+            if not o.ok:
+                rep.disagreements.append({'what': f'{what} failed: {o.detail}', 'replay': replay})
+                shutil.rmtree(root, ignore_errors=True)
+                continue
+            config = refreader.parse_json(be.objects['config'])
+            if config.get('encryption') is None or o.value.key is None:
+                rep.violations.append({'what': f'{what}: ' + ('the config has no encryption section' if config.get('encryption') is None else 'no key was produced')
+                                               + ' - the repository is not encrypted although encryption was never disabled',
+                                       'signature': {'secret': 'encryption silently off', 'where': 'config'}, 'replay': replay})
+            s1 = cl.snapshot([tree], note=note)
+            outputs.append(('snapshot', s1.stdout, s1.stderr))
+            if not s1.ok:
+                rep.disagreements.append({'what': f'{what}: the first snapshot failed: {s1.detail}', 'replay': replay})
+            h = {'cid': 1000 + idx, 'config': be.objects['config'], 'keys': {'owner': cl.key} if cl.key else {}, 'passwords': {'owner': pw},
+                 'to_file': {'owner': False}, 'keyfiles': {}, 'outputs': outputs, 'log': list(be.log),
+                 'snapshots': [(s1.value, 'owner')] if s1.ok else [], 'files': [files], 'notes': [note]}
+            hits, cnt = taint_scan(h)
+            rep.evaluations += cnt
+            seen = set()
+            for hit in hits:
+                if (hit['secret'], hit['where']) in seen:
+                    continue
+                seen.add((hit['secret'], hit['where']))
+                rep.violations.append({'what': f'{what}: {hit["secret"]} found in {hit["form"]} form in {hit["where"]}',
+                                       'signature': {'secret': hit['secret'], 'where': hit['where'], 'scenario': 'init-settings'}, 'replay': replay})
+            shutil.rmtree(root, ignore_errors=True)
+
+
 def live_sessions_case(ctx, rep, cid, hashing, chunking):
     """Several repositories of one user served by ONE process: an unencrypted repository and two encrypted ones with
     different keys, each through a long-lived Repository object, commands interleaved over the same file contents (the
@@ -991,6 +1080,7 @@ def run(ctx) -> Report:
     duplicated_state_probe(ctx, rep)
     size_threshold_probe(ctx, rep)
     live_sessions(ctx, rep)
+    init_settings_probe(ctx, rep)
     return rep
 
 
@@ -1007,12 +1097,19 @@ def search(ctx, broken) -> Report:
     duplicated_state_probe(ctx, rep)
     size_threshold_probe(ctx, rep)
     live_sessions(ctx, rep)
+    init_settings_probe(ctx, rep)
     return rep
 
 
 def replay(ctx, obj):
     import random
     r = obj.get('replay') or {}
+    if 'init_settings' in r:
+        rep = Report(rule=RULE)
+        init_settings_probe(ctx, rep)
+        for v in rep.violations:
+            print('VIOLATION-REPRODUCED', v['what'])
+        return 1 if rep.violations else 0
     if 'live' in r:
         rep = Report(rule=RULE)
         live_sessions_case(ctx, rep, r['live']['cid'], r['live']['hashing'], r['live']['chunking'])
